@@ -309,11 +309,13 @@ func RunRounds(w *tr.Writer, in *tr.Interner, st *RStats, tid int, h RHist) {
 	} else {
 		r.base = util.NewMemoryNodeDB()
 	}
+	broken := map[int]bool{}
 	r.emitPlain(map[string]any{"op": "reset", "persist": h.Persist, "quiet": h.Quiet, "sharedcache": h.SharedCache})
 	for _, op := range h.Ops {
 		r.sig.WriteString(op.Op[:2])
 		switch op.Op {
 		case "round":
+			broken = map[int]bool{}
 			r.ver = op.Ver
 			r.tries = map[int]*rtrie{}
 			r.order = []int{0}
@@ -351,10 +353,20 @@ func RunRounds(w *tr.Writer, in *tr.Interner, st *RStats, tid int, h RHist) {
 			if res == "panic" {
 				st.Panics++
 			}
+			if res != "ok" && res != "notpresent" && op.T != 0 {
+				// an operation that failed on a (stale) child may have been applied partially: such a
+				// transaction is aborted, never merged (its later merge is turned into a discard)
+				broken[op.T] = true
+			}
 			r.emit(map[string]any{"op": op.Op, "t": op.T, "p": bridge.Chars(p), "v": op.V, "res": res})
 		case "merge":
 			t, parent := r.tries[op.T], r.tries[0]
 			if t == nil || parent == nil || op.T == 0 {
+				continue
+			}
+			if broken[op.T] {
+				delete(r.tries, op.T)
+				r.emit(map[string]any{"op": "discard", "t": op.T})
 				continue
 			}
 			res := Guard(func() string {
@@ -503,9 +515,15 @@ func GenRounds(rnd *rand.Rand, persist bool) RHist {
 	}
 	ver := int64(1 + rnd.Intn(3))
 	lastSaved := int64(0)
+	var view map[int]map[string]string
 	for rd := 0; rd < nrounds; rd++ {
 		h.Ops = append(h.Ops, ROp{Op: "round", Ver: ver})
 		ntx := 1 + rnd.Intn(5)
+		// approximate per-trie views (generator-side bookkeeping only, never used as an oracle)
+		changed := map[int][]ROp{}
+		if view == nil {
+			view = map[int]map[string]string{0: {}}
+		}
 		open := []int{}
 		next := 1
 		nsteps := ntx * (1 + rnd.Intn(5))
@@ -519,12 +537,41 @@ func GenRounds(rnd *rand.Rand, persist bool) RHist {
 				}
 				open = append(open, next)
 				h.Ops = append(h.Ops, ROp{Op: "open", T: next})
+				view[next] = map[string]string{}
+				for k, v := range view[0] {
+					view[next][k] = v
+				}
 				next++
 			case x < 75:
-				h.Ops = append(h.Ops, mkOp(rnd, open[rnd.Intn(len(open))], path(), vals))
+				c := open[rnd.Intn(len(open))]
+				// restore: undo an earlier change of this child exactly (write the previous value back / delete what it added)
+				if hist := changed[c]; len(hist) > 0 && rnd.Intn(100) < 30 {
+					u := hist[rnd.Intn(len(hist))]
+					if u.V == "" {
+						h.Ops = append(h.Ops, ROp{Op: "del", T: c, P: u.P})
+					} else {
+						h.Ops = append(h.Ops, ROp{Op: "ins", T: c, P: u.P, V: u.V})
+					}
+					continue
+				}
+				op := mkOp(rnd, c, path(), vals)
+				// remember what the path held in this child's view before the change
+				key := string(joinChars(op.P))
+				prev, had := view[c][key]
+				if !had {
+					prev = ""
+				}
+				changed[c] = append(changed[c], ROp{P: op.P, V: prev})
+				if op.Op == "ins" {
+					view[c][key] = op.V
+				} else {
+					delete(view[c], key)
+				}
+				h.Ops = append(h.Ops, op)
 			case x < 90:
 				i := rnd.Intn(len(open))
 				h.Ops = append(h.Ops, ROp{Op: "merge", T: open[i]})
+				view[0] = view[open[i]]
 				open = append(open[:i], open[i+1:]...)
 			default:
 				i := rnd.Intn(len(open))
